@@ -7,6 +7,7 @@ import (
 	"go/token"
 	"go/types"
 	"sort"
+	"strings"
 
 	"golang.org/x/tools/go/ssa"
 )
@@ -545,18 +546,68 @@ func runC18(c *Ctx) {
 			if !ok {
 				return
 			}
-			lx, okx := isBuiltinCall(bo.X, "len")
-			ly, oky := isBuiltinCall(bo.Y, "len")
+			// what each side is the length of: len(x), or an integer parameter of an unexported helper that
+			// every call site hands a length (the helper is then judged for each of its call sites)
+			var lenOf func(v ssa.Value, d int) ([]ssa.Value, bool)
+			lenOf = func(v ssa.Value, d int) ([]ssa.Value, bool) {
+				if ln, ok := isBuiltinCall(v, "len"); ok {
+					return []ssa.Value{ln.Call.Args[0]}, true
+				}
+				p, ok := v.(*ssa.Parameter)
+				if !ok || d > 2 || p.Parent().Object() == nil || p.Parent().Object().Exported() {
+					return nil, false
+				}
+				pi := -1
+				for i, q := range p.Parent().Params {
+					if q == p {
+						pi = i
+					}
+				}
+				var out []ssa.Value
+				sites := 0
+				for _, g := range P.PkgFuncs("mapset") {
+					allInstrs(g, func(in2 ssa.Instruction) {
+						call, ok := in2.(*ssa.Call)
+						if !ok || origin(staticCallee(&call.Call)) != origin(p.Parent()) || pi >= len(call.Call.Args) {
+							return
+						}
+						sites++
+						if xs, ok := lenOf(call.Call.Args[pi], d+1); ok {
+							out = append(out, xs...)
+						} else {
+							out = append(out, nil)
+						}
+					})
+				}
+				for _, x := range out {
+					if x == nil {
+						return nil, false
+					}
+				}
+				return out, sites > 0
+			}
+			xsL, okx := lenOf(bo.X, 0)
+			xsR, oky := lenOf(bo.Y, 0)
 			if !okx || !oky {
 				return
 			}
 			// does either successor return a constant right away?
 			shortcut := false
 			for _, sb := range iff.Block().Succs {
-				if len(sb.Instrs) <= 2 {
+				if len(sb.Instrs) <= 3 {
 					if ret, ok := sb.Instrs[len(sb.Instrs)-1].(*ssa.Return); ok && len(ret.Results) == 1 {
 						if _, isConst := ret.Results[0].(*ssa.Const); isConst {
 							shortcut = true
+						}
+						// the result spilled to a cell (functions with range-over-func loops): *r = const; return *r
+						if ld, ok := ret.Results[0].(*ssa.UnOp); ok && ld.Op == token.MUL {
+							for _, in2 := range sb.Instrs {
+								if st, ok := in2.(*ssa.Store); ok && st.Addr == ld.X {
+									if _, isConst := st.Val.(*ssa.Const); isConst {
+										shortcut = true
+									}
+								}
+							}
 						}
 					}
 				}
@@ -569,8 +620,17 @@ func runC18(c *Ctx) {
 				_, ok := v.Type().Underlying().(*types.Map)
 				return ok
 			}
-			key := fmt.Sprintf("%s:len(%s) %s len(%s)", fnName(fn), ksym(lx.Call.Args[0]), bo.Op, ksym(ly.Call.Args[0]))
-			c.judge(isMap(lx.Call.Args[0]) && isMap(ly.Call.Args[0]), "R-CARD-SHORTCUT", key, bo.Pos(), "cardinalities of two sets are compared", "a length comparison decides the answer, but one side is a list that may contain repeated values, so its length is not a cardinality")
+			key := fmt.Sprintf("%s:%s %s %s", fnName(fn), ksym(bo.X), bo.Op, ksym(bo.Y))
+			allMaps := true
+			var lists []string
+			for _, x := range append(append([]ssa.Value{}, xsL...), xsR...) {
+				if !isMap(x) {
+					allMaps = false
+					lists = append(lists, ksym(x))
+				}
+			}
+			sort.Strings(lists)
+			c.judge(allMaps, "R-CARD-SHORTCUT", key, bo.Pos(), "cardinalities of two sets are compared", fmt.Sprintf("a length comparison decides the answer, but one side is (for some caller) the length of a list — %s — which may contain repeated values, so its length is not a cardinality", strings.Join(lists, ", ")))
 		})
 	}
 
